@@ -4,7 +4,8 @@
 (* operational model DecOp, step by step.  After EVERY public call the       *)
 (* harness records the return value, the whole control state (verification   *)
 (* hook opus_verif_decoder_peek fields 0-14), the CELT concealment state      *)
-(* (opus_verif_celt_decoder_peek: loss_duration, skip_plc), the SILK          *)
+(* (opus_verif_celt_decoder_peek: loss_duration, skip_plc, postfilter_        *)
+(* period), whether the soft-clip memory is non-zero, the SILK                *)
 (* bookkeeping read from the decoder's memory (lossCnt, first_frame_after_     *)
 (* reset, last_frame_lost, prevSignalType, fs_kHz of both channels,            *)
 (* nFramesDecoded, nFramesPerPacket, nb_subfr, nChannelsInternal,              *)
@@ -24,7 +25,7 @@
 (*                                                                         *)
 (* Events (one JSON object per line):                                        *)
 (*   new  x Fs ch api                                                        *)
-(*   dec  x h n nul fs fec r hw fin can z  + state (see Obs)  + twins          *)
+(*   dec  x api h n nul fs fec r hw fin can z  + state (see Obs)  + twins      *)
 (*   ctl  x op (1 reset, 2 set gain) v r + state                               *)
 (*   end  x                                                                  *)
 (***************************************************************************)
@@ -46,7 +47,7 @@ Pk(e) == [hdr |-> e.h, len |-> IF e.nul = 1 THEN 0 ELSE e.n, fill |-> 0]
 
 CallOf(e) ==
   LET p == Pk(e) IN
-  [kind |-> "dec", api |-> eapi, lost |-> (p.len = 0), neg |-> (p.len < 0),
+  [kind |-> "dec", api |-> e.api, lost |-> (p.len = 0), neg |-> (p.len < 0),
    r |-> IF p.len > 0 THEN Parse(p, FALSE) ELSE Bad,
    nbs |-> IF p.len > 0 THEN NbSamplesOf(p, ms.c.Fs) ELSE 0,
    fs |-> e.fs, fec |-> e.fec, g |-> 0, redc |-> 3]
@@ -70,7 +71,8 @@ ObsCh(e, n, x, wild) == [l |-> e.sl[n], f |-> e.sr[n], ll |-> e.sq[n], fs |-> e.
 Obs(e, x, wild) ==
   [c  |-> [x.c EXCEPT !.prevMode = e.pm, !.prevRedundancy = (e.pr # 0), !.mode = e.md, !.bw = e.bw, !.frameSize = e.fz,
                       !.streamCh = e.sc, !.lastDur = e.ld, !.gain = e.g],
-   ce |-> [ld |-> e.cl, skip |-> e.cs],
+   ce |-> [ld |-> e.cl, skip |-> e.cs, pf |-> IF wild /\ x.ce.pf = -1 THEN -1 ELSE e.cp],
+   cm |-> [i \in 1..2 |-> IF wild /\ x.cm[i] = -1 THEN -1 ELSE e.cm[i]],
    sk |-> [x.sk EXCEPT !.ci = e.sci, !.nfd = e.snf, !.npp = e.snp, !.nsub = e.sns, !.dom = e.sdm,
                        !.ch = <<ObsCh(e, 1, x, wild), ObsCh(e, 2, x, wild)>>],
    hk |-> [red |-> e.hk[1], c2s |-> e.hk[2], rbp |-> B01(e.hk[3] > 0), tr |-> e.hk[4]]]
@@ -79,7 +81,7 @@ Obs(e, x, wild) ==
 Diff(e, m) ==
   LET o == Obs(e, m.s, TRUE) IN
   (IF m.ret # e.r THEN {"ret"} ELSE {}) \cup (IF m.s.c # o.c THEN {"control"} ELSE {}) \cup (IF m.s.hk # o.hk THEN {"hook"} ELSE {})
-  \cup (IF m.s.ce # o.ce THEN {"celt"} ELSE {}) \cup (IF m.s.sk # o.sk THEN {"silk"} ELSE {})
+  \cup (IF m.s.ce # o.ce THEN {"celt"} ELSE {}) \cup (IF m.s.sk # o.sk THEN {"silk"} ELSE {}) \cup (IF m.s.cm # o.cm THEN {"softclip"} ELSE {})
 
 \* the decoder's decision about a redundant frame is one the bit stream can carry (Link!DecFrameAllows: speech only
 \* 2 <= bytes <= len - 1, hybrid 2..257 with at least three bytes left), judged on the last frame of the packet
